@@ -407,6 +407,14 @@ impl fmt::Display for Rule {
     }
 }
 
+impl Rule {
+    /// converts a parsed rule, refusing public keys that are not valid keys
+    pub(super) fn from_parsed(r: biscuit_parser::builder::Rule) -> Result<Self, error::Token> {
+        super::scope::check_parsed_scopes(&r.scopes)?;
+        Ok(r.into())
+    }
+}
+
 impl From<biscuit_parser::builder::Rule> for Rule {
     fn from(r: biscuit_parser::builder::Rule) -> Self {
         Rule {
@@ -440,10 +448,10 @@ impl TryFrom<&str> for Rule {
     type Error = error::Token;
 
     fn try_from(value: &str) -> Result<Self, Self::Error> {
-        Ok(biscuit_parser::parser::rule(value)
+        let (_, rule) = biscuit_parser::parser::rule(value)
             .finish()
-            .map(|(_, o)| o.into())
-            .map_err(biscuit_parser::error::LanguageError::from)?)
+            .map_err(biscuit_parser::error::LanguageError::from)?;
+        Rule::from_parsed(rule)
     }
 }
 
@@ -451,9 +459,9 @@ impl FromStr for Rule {
     type Err = error::Token;
 
     fn from_str(s: &str) -> Result<Self, Self::Err> {
-        Ok(biscuit_parser::parser::rule(s)
+        let (_, rule) = biscuit_parser::parser::rule(s)
             .finish()
-            .map(|(_, o)| o.into())
-            .map_err(biscuit_parser::error::LanguageError::from)?)
+            .map_err(biscuit_parser::error::LanguageError::from)?;
+        Rule::from_parsed(rule)
     }
 }
